@@ -231,8 +231,11 @@ theorem push_wakes_parked (special) (mode : Mode) (c : Nat) (sig : Sig) (raw : L
   intro s'
   have hw : s'.AllWoken (s.conn c).db := by
     show ((runWith special mode c sig raw fromScript s).2).AllWoken _
-    rw [runWith_regular_run special mode c sig raw fromScript hreg]
-    exact Sys.afterRegular_allWoken s _ _ hn
+    cases hr : s.refuses c sig with
+    | true => exact absurd (Sys.regularOut_of_refused body raw fromScript hr).1 hn
+    | false =>
+      rw [runWith_regular_run special mode c sig raw fromScript hreg s hr]
+      exact Sys.afterRegular_allWoken s _ _ hn
   exact ⟨hw, fun c' p => hw.conn c' p⟩
 
 /-! ## 8. one turn of a woken connection; the time-out -/
